@@ -8,6 +8,7 @@ import TerwayModel.Driver.Json
 import TerwayModel.Driver.NetConf
 import TerwayModel.Driver.Datapath
 import TerwayModel.Driver.Webhook
+import TerwayModel.Driver.Daemon
 /-
 `drv`: reads one operation per line (`<model>.<op> arg…`), prints one canonical line per input.
 Malformed or unknown lines print `bad-op` — never a default value.
@@ -18,6 +19,7 @@ structure St where
   tok : Token.St := {}
   vsw : VSwitch.St := VSwitch.St.init
   fib : DatapathD.FibSt := {}
+  dm : DaemonD.St := DaemonD.St.init
 
 def dispatch (st : St) (line : String) : St × String :=
   match words line with
@@ -37,6 +39,10 @@ def dispatch (st : St) (line : String) : St × String :=
     | ["nc", op] => (st, (NetConfD.step op args).getD "bad-op")
     | ["cfg", op] => (st, (JsonD.step op args).getD "bad-op")
     | ["cni", op] => (st, (JsonD.chainStep op args).getD "bad-op")
+    | ["dm", op] =>
+      match DaemonD.step st.dm op args with
+      | some (t, o) => ({ st with dm := t }, o)
+      | none => (st, "bad-op")
     | ["tok", op] =>
       match Token.step st.tok op args with
       | some (t, o) => ({ st with tok := t }, o)
